@@ -13,6 +13,8 @@ inductive In
   | bytes (data : List Char)                       -- dataReceived(chunk)
   | lost                                           -- connectionLost(reason)
   | whenDisc (rid : Nat)                           -- when_disconnected()
+  | onDisc (rid : Nat)                             -- proto.on_disconnect.addBoth(...)  (deprecated attribute)
+  | reason (clean : Bool)                          -- the close reason the next `lost` will carry (ConnectionDone or not)
   | addL (name : Line) (lid cmdId : Nat)           -- add_event_listener
   | remL (name : Line) (lid cmdId : Nat)           -- remove_event_listener
   deriving DecidableEq, Repr
@@ -54,6 +56,8 @@ def step (act : Nat → Act) (p : P) : In → P × List Out
   | .bytes d => stepBytes act d p
   | .lost => liftQ p (lose p.q)
   | .whenDisc rid => liftQ p (whenDisc p.q rid)
+  | .onDisc rid => liftQ p (onDisc p.q rid)
+  | .reason clean => ({ p with q := { p.q with clean := clean } }, [])
   | .addL n l c => liftQ p (addListener p.q n l c)
   | .remL n l c =>
     match removeListener p.q n l c with
